@@ -9,6 +9,11 @@ RULE = ("one closed CFG per solver-enumerated path x payload {plain, AST} x stag
         "nested as the regions are, one solid edge per jump target and one dashed edge per back edge drawn to the resolved header, labels carry "
         "name / assignments / variable and table / statements; non-trivial = result has regions")
 FUNCTIONS = COMMON_FUNCTIONS + [
+    "numba_scfg.rendering.rendering:ByteFlowRenderer.render_byteflow",
+    "numba_scfg.rendering.rendering:ByteFlowRenderer.render_basic_block",
+    "numba_scfg.rendering.rendering:ByteFlowRenderer.render_region_block",
+    "numba_scfg.rendering.rendering:ByteFlowRenderer.render_control_variable_block",
+    "numba_scfg.rendering.rendering:ByteFlowRenderer.render_branching_block",
     "numba_scfg.rendering.rendering:BaseRenderer.render_block",
     "numba_scfg.rendering.rendering:BaseRenderer.render_edges",
     "numba_scfg.rendering.rendering:SCFGRenderer.__init__",
@@ -37,4 +42,100 @@ def _nt(g, desc):
     return bool(regions(g))
 
 
-check, harness, jobs, replay = make(_oracle, stages=(0, 1, 2, 3), payloads=("basic", "ast"), nontrivial=_nt, quick_n5_max_edges=7)
+check, harness, _jobs, _replay = make(_oracle, stages=(0, 1, 2, 3), payloads=("basic", "ast"), nontrivial=_nt, quick_n5_max_edges=7)
+
+
+# ---- ByteFlowRenderer on bytecode-derived graphs (payload summary = the block's instructions)
+
+
+def check_byteflow(desc):
+    import dis
+    import re
+    from numba_scfg.core.datastructures.byte_flow import ByteFlow
+    from numba_scfg.rendering.rendering import ByteFlowRenderer
+    from vf.oracles.hier import STAGES, flatten
+    from vf.s1common import exc_signature, sig_of
+
+    ns = {}
+    exec(compile(desc["src"], "<c17>", "exec"), ns)
+    fn = ns["f"]
+    fails = []
+    if fn.__code__.co_exceptiontable:
+        return fails
+    for k in (0, 1, 2, 3):
+        flow = ByteFlow.from_bytecode(fn)
+        try:
+            for st in STAGES[:k]:
+                getattr(flow.scfg, st)()
+        except Exception:
+            break
+        try:
+            src = ByteFlowRenderer().render_byteflow(flow).source
+        except Exception as e:
+            fails.append({"kind": "render", "signature": f"s{k}:byteflow:render-exception:" + exc_signature(e), "detail": repr(e)[:200]})
+            continue
+        errs = check_dot(flow.scfg, src)
+        # payload summary: every instruction of a bytecode block is listed in its label
+        from vf.oracles import dot as _dot
+        try:
+            g = _dot.parse(src)
+            labels = {n: a.get("label", "") for n, a, _ in g.nodes}
+            bcmap = {i.offset: i for i in dis.get_instructions(fn)}
+            for n, b in flatten(flow.scfg).items():
+                if type(b).__name__ == "PythonBytecodeBlock":
+                    for off in range(b.begin, b.end, 2):
+                        if off in bcmap and not re.search(r"(?<!\d)" + str(off) + r"(?!\d)[^\\\n]*" + bcmap[off].opname, labels.get(n, "")):
+                            errs.append(("label-instruction", "PythonBytecodeBlock", n, off))
+                            break
+        except _dot.DotError:
+            pass
+        seen = set()
+        for e in errs:
+            sg = f"s{k}:byteflow:" + sig_of(e)
+            if sg not in seen:
+                seen.add(sg)
+                fails.append({"kind": "render", "signature": sg, "detail": repr(e)[:300]})
+    return fails
+
+
+def jobs(tier):
+    import z3
+    from vf.runner import Job
+    from vf import s2
+    from vf.props.C09 import EXTRA_SOURCES
+
+    def xspace():
+        i = z3.Int("i")
+        return z3.And(i >= 0, i < len(EXTRA_SOURCES)), [i], {"i": i}
+
+    def xh(E, ctx, aux):
+        desc = {"kind": "byteflow", "src": EXTRA_SOURCES[E.realize(aux["i"])]}
+        ctx.evaluations += 1
+        ctx.nontrivial += 1
+        for f in check_byteflow(desc):
+            ctx.fail(f["kind"], f["signature"], desc, f["detail"])
+
+    def factory(ch):
+        return s2.CtlGen(ch, 1 if tier == "quick" else 2, 2, 1)
+
+    def ph(E, ctx, aux):
+        ch = s2.Chooser(E, getattr(ctx, "cube", ()))
+        desc = {"kind": "byteflow", "src": factory(ch).program()}
+        ctx.current = desc
+        ctx.evaluations += 1
+        ctx.nontrivial += 1
+        ctx.sample(desc, cap=1)
+        for f in check_byteflow(desc):
+            ctx.fail(f["kind"], f["signature"], desc, f["detail"])
+
+    js = _jobs(tier)
+    js.append(Job("byteflow-renderer-hand-written", xspace, xh, bounds={"renderer": "ByteFlowRenderer", "functions": len(EXTRA_SOURCES), "stages": [0, 1, 2, 3]}, budget_s=300))
+    js.append(Job("byteflow-renderer-compiled-S2-ctl", lambda: (None, [], None), ph, bounds={"renderer": "ByteFlowRenderer", "space": "compiled S2-ctl", "stages": [0, 1, 2, 3]},
+                  budget_s=900, cubes_fn=lambda: s2.enum_prefixes(lambda ch: factory(ch).program(), 3)))
+    return js
+
+
+def replay(desc):
+    if desc.get("kind") == "byteflow":
+        return check_byteflow(desc)
+    return _replay(desc)
